@@ -143,10 +143,12 @@ class BaseMySensorsProtocol(serial.threaded.LineReader):
         """Call connection lost callbacks."""
         if self.gateway.on_conn_lost is not None:
             self.gateway.on_conn_lost(self.gateway, exc)
+        # Forget the lost transport before reconnecting. The reconnect sets
+        # the new transport from another thread and must not be overwritten.
+        self.transport = None
         if exc:
             _LOGGER.error(exc)
             self.conn_lost_callback()
-        self.transport = None
 
 
 class AsyncMySensorsProtocol(BaseMySensorsProtocol, asyncio.Protocol):
